@@ -445,6 +445,29 @@ func (fr *frame) writerCall(c *ssa.Call, fn *ssa.Function, args []Val) (Val, boo
 			fr.havocFresh(dst)
 		}
 		return top, true
+	case pkg == "encoding/binary" && (recvT == "bigEndian" || recvT == "littleEndian") && (name == "Uint16" || name == "Uint32" || name == "Uint64") && len(args) == 2:
+		// reading back bytes the analysed code wrote itself (a scratch buffer):
+		// the number they spell; bytes of the input stay a named term
+		n := map[string]int{"Uint16": 2, "Uint32": 4, "Uint64": 8}[name]
+		src := args[1]
+		if src.K != KSlice || !strings.Contains(src.S, "#") || (src.Len >= 0 && src.Len < n) {
+			return Val{}, false
+		}
+		v := new(big.Int)
+		for i := 0; i < n; i++ {
+			idx := i
+			if recvT == "littleEndian" {
+				idx = n - 1 - i
+			}
+			e := fr.load(fmt.Sprintf("%s[%d]", src.S, src.Off+idx), typByteT)
+			if e.K != KInt {
+				return Val{}, false
+			}
+			v.Lsh(v, 8)
+			v.Or(v, wrapBits(e.I, 8))
+			dep = dep || e.Dep
+		}
+		return Val{K: KInt, I: v, Dep: dep}, true
 	case pkg == "encoding/binary" && name == "Write" && len(args) == 3:
 		// binary.Write(w, order, v) with a fixed-size integer or float value
 		key, ok := bufKey(args[0])
